@@ -112,8 +112,12 @@ class Ops:
             return ("raw", v)
         if k == "bbconst" and name == "0":
             return I(v[1], "u64")
-        if k == "downcast" and v[1][0] == "next" and v[2] == "Some" and name == "0":
+        if k == "downcast" and v[1][0] == "next" and len(v[1]) == 2 and v[2] == "Some" and name == "0":
             return ("elem", v[1][1])
+        if k == "downcast" and v[2] == "Ok" and name == "0" and v[1][0] == "call" and v[1][1].startswith("core::option::Option<") and v[1][1].endswith("::ok_or"):
+            return self.field(self.downcast(v[1][2][0], "Some"), "0")
+        if k == "downcast" and v[1][0] == "next" and len(v[1]) == 3 and v[2] == "Some" and name == "0":
+            return ("nth", v[1][1], v[1][2])
         if k == "trydown" and name == "0":
             tb, variant = v[1], v[2]
             inner = tb[2]
@@ -194,6 +198,9 @@ class Ops:
     # --- operators
     def discr(self, v):
         k = v[0]
+        if k == "call" and v[1].startswith("core::option::Option<") and v[1].endswith("::ok_or") and len(v[2]) == 2:
+            # Result discriminant: Ok = 0 iff the option is Some
+            return self.bin("Eq", self.discr(v[2][0]), I(0, "isize"))
         if k == "trybranch":
             # ControlFlow discriminant: Continue = 0, Break = 1
             if v[1] == "option":
@@ -382,7 +389,7 @@ BBASSIGN = {
 
 class SymExec:
     def __init__(self, facts, body, cgen=None, tgen=None, max_paths=20000, inline=None,
-                 opaque=None, max_inline_blocks=20, max_depth=4, params=None, entry_store=None, raw=False):
+                 opaque=None, max_inline_blocks=20, max_depth=4, params=None, entry_store=None, raw=False, count_next=False):
         self.facts = facts
         self.ops = Ops(facts)
         self.body = body
@@ -400,6 +407,7 @@ class SymExec:
         self.entry_store = entry_store
         self.nevents = 0
         self.raw = raw
+        self.count_next = count_next
         self.types = {}
         self.dn = {}
         self._modset = {}
@@ -783,7 +791,7 @@ class SymExec:
                     else:
                         oldv = old
                     snap[(lname, path)] = oldv
-                    if oldv is not None and oldv[0] in ("iter", "iter*"):
+                    if oldv is not None and oldv[0] in ("iter", "iter*", "iterk"):
                         newv = ("iter*", oldv[1])
                     else:
                         newv = ("hv", tag, lname + "".join("." + h[1] for h in path), bb)
@@ -1276,7 +1284,7 @@ class SymExec:
                 fields = None
                 if ms is not None and a is p:
                     fields = ms.get(ai + 1)
-                if old[0] in ("iter", "iter*"):
+                if old[0] in ("iter", "iter*", "iterk"):
                     new = ("iter*", old[1])
                     base = st.store.get(root, ("undef", root))
                     st.store[root] = self.ops.update(base, path, new) if path else new
@@ -1395,9 +1403,17 @@ class SymExec:
             p = args[0]
             if p[0] == "ptr":
                 cur = self.load(st, p[1], p[2])
+                if cur[0] == "iter" and self.count_next:
+                    self.store_ptr(st, p, ("iterk", cur[1], 1))
+                    return ("next", cur[1], 0)
+                if cur[0] == "iterk":
+                    self.store_ptr(st, p, ("iterk", cur[1], cur[2] + 1))
+                    return ("next", cur[1], cur[2])
                 if cur[0] in ("iter", "iter*"):
                     self.store_ptr(st, p, ("iter*", cur[1]))
                     return ("next", cur[1])
+        if name in ("core::str::<impl str>::chars", "str::chars") and self.count_next:
+            return ("iter", ("chars", args[0]))
         if name.endswith("core::ops::try_trait::Try>::branch") and len(args) == 1:
             kind = "option" if name.startswith("<core::option::Option<") else ("result" if name.startswith("<core::result::Result<") else None)
             if kind:
@@ -1537,7 +1553,7 @@ def show(e, depth=0):
     if k == "elem":
         return "elem(%s)" % sh(e[1])
     if k == "next":
-        return "next(%s)" % sh(e[1])
+        return "next(%s)" % sh(e[1]) if len(e) == 2 else "next#%d(%s)" % (e[2], sh(e[1]))
     if k == "downcast":
         return "(%s as %s)" % (sh(e[1]), e[2])
     if k == "agg":
